@@ -65,6 +65,20 @@ pub fn value_corpus(k: usize, cap: usize, per_shape_limit: usize) -> Vec<(Shape,
     out.push((Shape::Seq(Box::new(Shape::U8)), vec![Val::Seq((0..40u8).map(Val::U8).collect()), Val::Seq(vec![Val::U8(0); 17])]));
     out.push((Shape::Tuple(vec![Shape::Bool; 20]), vec![Val::Tuple((0..20).map(|i| Val::Bool(i % 3 == 0)).collect())]));
     out.push((Shape::Seq(Box::new(Shape::Option(Box::new(Shape::I8)))), vec![Val::Seq((0..24).map(|i| if i % 5 == 0 { Val::Some(Box::new(Val::I8(-1))) } else { Val::None }).collect())]));
+    // mixed delivery: a run of single-byte items (try_push) and a block write (try_extend) that together reach or
+    // cross a 254-byte COBS block boundary, in both orders (round-8 seeds C06-i / C20-i: a modifier whose bulk path
+    // and byte path keep separate bookkeeping)
+    let mut mixed_a = vec![];
+    let mut mixed_b = vec![];
+    for p in [200usize, 251, 253] {
+        for e in [1usize, 50, 52, 100] {
+            let bytes: Vec<Val> = (0..p).map(|i| Val::U8(1 + (i % 200) as u8)).collect();
+            mixed_a.push(Val::Tuple(vec![Val::Seq(bytes.clone()), Val::Str("x".repeat(e))]));
+            mixed_b.push(Val::Tuple(vec![Val::Str("y".repeat(p)), Val::Seq(bytes[..e].to_vec())]));
+        }
+    }
+    out.push((Shape::Tuple(vec![Shape::Seq(Box::new(Shape::U8)), Shape::Str]), mixed_a));
+    out.push((Shape::Tuple(vec![Shape::Str, Shape::Seq(Box::new(Shape::U8))]), mixed_b));
     out
 }
 
